@@ -502,13 +502,23 @@ func genHistory(ch *vs.Choices, p *hProj, prop, tier string) []hStep {
 	// of the histories begin by running their first task (so that there is a recorded fingerprint to get wrong)
 	startClean := ch.Bool(1, 2)
 	prevTask := -1
-	for i := 0; i < n; i++ {
+	// fault-then-recovery: two times out of three, arming a fault (failing command, refusing helper, failing
+	// precondition) is followed by an invocation that meets it, the fault being cleared, and one more invocation
+	var queue []hStep
+	for i := 0; i < n || len(queue) > 0; i++ {
 		s := hStep{Kind: weights[ch.Draw(len(weights))], Task: ch.Draw(len(p.Tasks)), Adv: advs[ch.Draw(len(advs))]}
 		if prevTask >= 0 && ch.Bool(2, 3) {
 			s.Task = prevTask
 		}
 		if i == 0 && startClean {
 			s.Kind = "run-yes"
+		}
+		if len(queue) > 0 {
+			s.Kind, s.Task = queue[0].Kind, queue[0].Task
+			queue = queue[1:]
+		} else if (s.Kind == "op:fail" || s.Kind == "op:failcall" || s.Kind == "op:prefail") && prop != "C12" && ch.Bool(2, 3) {
+			meet := []string{"run", "run-yes", "both", "run"}[ch.Draw(4)]
+			queue = []hStep{{Kind: meet, Task: s.Task}, {Kind: "op:clearfail", Task: s.Task}, {Kind: "run-yes", Task: s.Task}}
 		}
 		prevTask = s.Task
 		switch s.Kind {
